@@ -88,7 +88,7 @@ def run_tlc(
     coverage: bool = False,
     deadlock: bool = False,
     dfs_queue: bool = False,
-    heap: str = "8g",
+    heap: str = "4g",
     extra: list[str] | None = None,
     must_pass: bool = True,
 ) -> TlcResult:
